@@ -54,6 +54,14 @@ func genC15(rng *rand.Rand, c *Case) {
 			c.Ops = append(c.Ops, Op{K: "setuser", N: []int{live[rng.Intn(len(live))], acc, pw, rng.Intn(3)}})
 		case k < 7:
 			c.Ops = append(c.Ops, Op{K: "batch-modify", N: []int{live[rng.Intn(len(live))], acc, pw, rng.Intn(3)}})
+		case k < 9 && len(live) >= 2 && rng.Intn(4) == 0:
+			// rename onto a login that exists: either refused with nothing changed, or the target is replaced
+			j, t := rng.Intn(len(live)), rng.Intn(len(live))
+			if j != t {
+				c.Ops = append(c.Ops, Op{K: "batch-rename", N: []int{live[j], live[t], acc, pw, rng.Intn(3)}})
+				dead = append(dead, live[j])
+				live = append(live[:j], live[j+1:]...)
+			}
 		case k < 9:
 			if l := take(); l >= 0 {
 				j := rng.Intn(len(live))
@@ -343,7 +351,8 @@ func runC15(w *World) {
 			case "batch-rename":
 				l, nl, a, pw, mode := L(op.N[0]), L(op.N[1]), accessFromInt(op.N[2]), c15Pws[op.N[3]], op.N[4]
 				m, exists := model[l]
-				if _, clash := model[nl]; !exists || clash {
+				_, clash := model[nl]
+				if !exists || l == nl {
 					continue
 				}
 				name := fmt.Sprintf("Renamed %d", step)
@@ -354,7 +363,13 @@ func runC15(w *World) {
 				for p := range everPw[l] {
 					note(nl, p) // the old login's passwords must not work for the new login unless current
 				}
-				if !okRep(admin.UpdateUsers([]UserEdit{{Kind: "rename", Login: l, NewLogin: nl, Name: name, Access: a, PwMode: mode, Pw: pw}})) {
+				rep, ok := admin.UpdateUsers([]UserEdit{{Kind: "rename", Login: l, NewLogin: nl, Name: name, Access: a, PwMode: mode, Pw: pw}})
+				if clash {
+					w.Probe("rename_onto_existing_login")
+					if !ok || rep.Err != 0 {
+						break // refused: nothing may have changed (verified below against the unchanged model)
+					}
+				} else if !okRep(rep, ok) {
 					return
 				}
 				delete(model, l)
